@@ -28,8 +28,29 @@ ASSUMPTIONS = ['sources outside the reference dialect (spec_lex = None: lone CR,
                'the renaming is judged as a consistent injection on identifier tokens (reserved names: C02)']
 PARTIAL = ''
 CLAIM = dict(
-    text='(filled in below)',
-    note='', technique='Coq proof + correspondence + extracted monitor', design_ref='8 C01')
+    text=("Theorems (Coq, closed under the global context; Proofs/LuaLexFacts.v, MinifyRelex.v, MinifyRelations.v) about a "
+          "model of LuaMinifyTokenWriter.to_lines/_minified_chunks/_fuses (bodies pinned, _FUSING_CHARS regenerated), of the "
+          "name factory and of Token.code/TokString.code (regenerated reverse-escape table), against the reference lexer "
+          "Spec/LuaLex.v, for EVERY token sequence of the dialect (no parse hypothesis), every configuration and keep file: "
+          "C01_luamin_preserves - the written text lexes to the input's significant tokens (keywords/symbols by text, numbers "
+          "by value, strings by denoted bytes), identifiers renamed exactly as the name factory answers (hence a consistent "
+          "injection, C02), same line groups, same token count; C01_holds - holds_C01 is true of the model's output; "
+          "C01_glue_free_symbols - a sweep over the symbol set x 256 bytes on the regenerated table, lifted to every right "
+          "context; C01_string_reencode - TokString.code of any byte string is read back to the same bytes; "
+          "C01_minify_total; C01_end_to_end / C01_holds_all - composed with the lexer worker's lex_agrees_code (C07): for every "
+          "byte string, lexer model then writer model, holds_C01 is true of the output - no hypothesis about the lexer left "
+          "(single chunk). Full statement proved after the fix: commit for S1 (token gluing). Tie: pinned "
+          "sources, correspondence of lexer model + writer model with the real writer on the adjacency enumerator (all "
+          "ordered pairs of token representatives incl. every symbol of the regenerated table), generated programs x "
+          "layouts x configurations, `p8tool luamin` and `build --lua-minify`; the extracted holds_C01 (reference tokenizer "
+          "only) evaluated on the implementation's real output, plus the stats counts."),
+    note=("Trusted: Coq kernel+VM, table dumps and source pins (gen/kernels_min.py, kernels_lexer.py, kernels_c02.py), "
+          "ExtrOcamlBasic extraction, OCaml glue, the reference grammar Spec/LuaLex.v as the meaning of 'PICO-8/Lua lexical "
+          "rules' (inputs it leaves undefined carry no claim), C07 for the link between picotool's lexer and the grammar "
+          "(observed here on every case through the monitor, which does not use picotool's lexer). The parser is not "
+          "modelled: the theorem covers all token sequences, so also all programs."),
+    technique='Coq proof (per-kind right-context lemmas, symbol sweep, induction over the writer) + correspondence + extracted monitor',
+    design_ref='8 C01')
 
 _CTX = {}
 _SELF = 'props.c01'
@@ -48,7 +69,7 @@ def generate(tier, rng):
     for c in fuses_cases():
         yield c
     seps = [b' '] if quick else [b' ', b'  ', b'\t', b' --[[c]] ']
-    for c in mc.pair_cases(rng, seps):
+    for c in mc.pair_cases(rng, seps, cfgs=('default', 'keep-all')):
         yield c
     if not quick:
         for c in mc.pair_cases(rng, [b'\n', b' -- c\n'], cfgs=('default',)):
